@@ -156,11 +156,11 @@ fn corpus() -> Vec<RunCase> {
         // (65,536 characters, the last one being the word just below the start)
         RunCase {
             stack: false, minimal: true, fuel: 400_000, inp: vec![],
-            image: vec![0x3001, 0x2209, 0xE40A, 0x2608, 0x7280, 0x14A1, 0x16FF, 0x0BFC, 0xE004, 0xF022, 0xF025, 0x0023, 0xFFF3, 0x0040],
+            image: vec![0x3001, 0x2209, 0xE40A, 0x2608, 0x7280, 0x14A1, 0x16FF, 0x0BFC, 0xE004, 0xF022, 0xF025, 0x0023, 0xFFF4, 0x0040],
         },
         RunCase {
             stack: false, minimal: false, fuel: 400_000, inp: vec![],
-            image: vec![0x3001, 0x2209, 0xE40A, 0x2608, 0x7280, 0x14A1, 0x16FF, 0x0BFC, 0xE004, 0xF024, 0xF025, 0x2323, 0xFFF3, 0x4040],
+            image: vec![0x3001, 0x2209, 0xE40A, 0x2608, 0x7280, 0x14A1, 0x16FF, 0x0BFC, 0xE004, 0xF024, 0xF025, 0x2323, 0xFFF4, 0x4040],
         },
     ]
 }
